@@ -87,6 +87,52 @@ def generate(repo):
         items["v2_checks_serialized"] = "miss:%s" % ex
     out.append("Definition gen_v2_checks_serialized : bool := %s.\n" % chk)
 
+    # ---- encode_v2: sender-side check on the frame content (flags byte + payload) actually sent
+    chk2 = "false"
+    try:
+        src = strip_comments(read(repo, "tensor_chain/src/tcp/framing.rs"))
+        _, body = find_fn(src, "encode_v2")
+        m = re.search(r"let\s+(\w+)\s*=\s*1\s*\+\s*payload\.len\(\)\s*;", body)
+        if not m:
+            raise KeyError("frame content length binding not found")
+        var = m.group(1)
+        post = body[m.end():]
+        cut = post.find("length_prefix(")
+        post = post if cut < 0 else post[:cut]
+        pat = r"if\s+(?:%s\s*>\s*self\.max_frame_length|self\.max_frame_length\s*<\s*%s)\s*\{[^}]*MessageTooLarge" % (var, var)
+        chk2 = "true" if re.search(pat, post, re.S) else "false"
+        items["v2_checks_frame"] = "translated"
+    except Exception as ex:
+        items["v2_checks_frame"] = "miss:%s" % ex
+    out.append("Definition gen_v2_checks_frame : bool := %s.\n" % chk2)
+
+    # ---- EmbeddingValidator::validate: which structural checks a received sparse vector must pass
+    vc = {"lens": "false", "bounds_all": "false", "sorted": "false"}
+    try:
+        src = strip_comments(read(repo, "tensor_chain/src/message_validation.rs"))
+        sub = src[src.index("impl EmbeddingValidator"):]
+        _, body = find_fn(sub, "validate")
+        err = r"\s*\{\s*return\s+Err\("
+        if re.search(r"if\s+embedding\.positions\(\)\.len\(\)\s*!=\s*embedding\.values\(\)\.len\(\)" + err, body):
+            vc["lens"] = "true"
+        m = re.search(r"let\s+(\w+)\s*=\s*embedding\.positions\(\)\s*;\s*for\s*\(\s*(\w+)\s*,\s*&(\w+)\s*\)\s+in\s+\1\.iter\(\)\.enumerate\(\)\s*\{", body)
+        if m:
+            ps, i, pos = m.group(1), m.group(2), m.group(3)
+            loop = body[m.end():]
+            if re.search(r"if\s+%s\s+as\s+usize\s*>=\s*dim" % pos + err, loop):
+                vc["bounds_all"] = "true"
+            if re.search(r"if\s+%s\s*>\s*0\s*&&\s*%s\[\s*%s\s*-\s*1\s*\]\s*>=\s*%s" % (i, ps, i, pos) + err, loop):
+                vc["sorted"] = "true"
+        else:
+            # other loop shapes: only a per-pair ordering test is recognised (bounds then cover pairs' second element only)
+            if re.search(r"\.windows\(\s*2\s*\)", body) and re.search(r"if\s+\w+\s*>=\s*\w+" + err, body):
+                vc["sorted"] = "true"
+        items["validator_checks"] = "translated"
+    except Exception as ex:
+        items["validator_checks"] = "miss:%s" % ex
+    out.append("Definition gen_vc_lens : bool := %s.\nDefinition gen_vc_bounds_all : bool := %s.\nDefinition gen_vc_sorted : bool := %s.\n"
+               % (vc["lens"], vc["bounds_all"], vc["sorted"]))
+
     # ---- compression constants
     vals = {"none": 0, "lz4": 1, "maxd": 16 * 1024 * 1024}
     try:
